@@ -6,6 +6,8 @@ EXTENDS WeightsRR, Json, TLC
 
 CONSTANT PatLen
 
+\* 2147483000 is close to the largest integer TLC represents (2^31 - 1)
+MCStarts == {0, 1, 2147483000}
 MCRings == << <<1, 2>>, <<2, 1, 2, 2>>, <<1, 2, 1, 3>> >>
 
 \* cursors differ only in where a cycle starts: schedules are printed for one initial state
